@@ -547,6 +547,7 @@ func (l *Log) assignStatusVars(r *rand.Rand) {
 	if mode == 0 {
 		return
 	}
+	var session []int
 	for _, f := range l.Files {
 		for _, u := range f.Units {
 			for _, e := range u.Evs {
@@ -568,7 +569,11 @@ func (l *Log) assignStatusVars(r *rand.Rand) {
 				}
 				e.CS = nil
 				if mode == 1 || r.Intn(2) == 0 {
-					cs := []int{pick(r, 8, 33, 45, 63, 255, r.Intn(65536)), pick(r, 8, 33, 45, 224, r.Intn(65536)), pick(r, 8, 33, 255, r.Intn(65536))}
+					// a session keeps its charset from one statement to the next most of the time
+					if session == nil || r.Intn(4) == 0 {
+						session = []int{pick(r, 8, 33, 45, 63, 255, r.Intn(65536)), pick(r, 8, 33, 45, 224, r.Intn(65536)), pick(r, 8, 33, 255, r.Intn(65536))}
+					}
+					cs := append([]int(nil), session...)
 					sv = append(sv, 4)
 					for _, c := range cs {
 						sv = append(sv, le16(uint16(c))...)
